@@ -79,6 +79,20 @@ func C13(c *Ctx) int {
 		c.Notes = append(c.Notes, fmt.Sprintf("TLC enumerated %d clock histories; %d replayed (evenly spread sample)", len(scheds), len(keep)))
 		scheds = keep
 	}
+	// a share of the histories of the relative definitions (a duration, a cycle counted from the
+	// timer's creation) is replayed with the timer created 750 ms past a whole second
+	{
+		var extra []drive.TimerSchedule
+		for i, s := range scheds {
+			d := defs[s.Def]
+			if i%3 == 0 && (d.Kind == "duration" || (d.Kind == "cycle" && !d.HasStart && d.End < 0)) && !d.Far {
+				s.SubSec = true
+				extra = append(extra, s)
+			}
+		}
+		scheds = append(scheds, extra...)
+		c.Extra["subsecond_histories"] = len(extra)
+	}
 	job := &Job{Opts: JobOpts{Mode: "timer", Seed: c.Seed, TMs: 3000}, TimerDefs: defs, Timer: scheds}
 	for range scheds {
 		job.Schedules = append(job.Schedules, drive.Schedule{})
